@@ -42,13 +42,21 @@ type Contract struct {
 	Where    string
 	Consumes []string // parameters of linear type that are NOT consumed (borrowed) are listed in Borrows
 	Borrows  []string
+	ExitGhost []GhostSet // ghost assignments performed at every return, before the postconditions are checked
 	Fresh    bool // results of linear type are fresh owned resources (default true)
 	Opts     map[string]string
+}
+
+// GhostSet is "g(x) := e when cond".
+type GhostSet struct {
+	Target, Val, Cond SExpr
+	Src               string
 }
 
 // MonoDecl declares an atomic field that other goroutines only ever increase,
 // optionally bounded by a rely condition over "self" and the new value "v".
 type MonoDecl struct {
+	Free bool // "atomic": other goroutines may change the value in any way the rely allows (not only upwards)
 	Rely SExpr
 	Guar SExpr
 	Src  string
@@ -76,6 +84,8 @@ type UFuncDecl struct {
 type ContractSet struct {
 	ByKey    map[string]*Contract
 	Pures    map[string]*PureDef
+	TypeInvs map[string]*PureDef // "pkgpath.T" -> invariant over self
+	TypeSteps map[string]*PureDef // "pkgpath.T" -> two-state invariant over self
 	Ghosts   map[string]*GhostDecl
 	UFuncs   map[string]*UFuncDecl
 	Consts   map[string]SExpr
@@ -88,6 +98,15 @@ type ContractSet struct {
 }
 
 func newContractSet() *ContractSet {
+	cs := newContractSet0()
+	// built-in ghost state: lock ownership, closed channels, live linear resources
+	cs.Ghosts["held"] = &GhostDecl{Name: "held", Arity: 1, Sort: SInt}
+	cs.Ghosts["closed"] = &GhostDecl{Name: "closed", Arity: 1, Sort: SBool}
+	cs.Ghosts["live"] = &GhostDecl{Name: "live", Arity: 1, Sort: SInt}
+	return cs
+}
+
+func newContractSet0() *ContractSet {
 	return &ContractSet{
 		ByKey: map[string]*Contract{}, Pures: map[string]*PureDef{}, Ghosts: map[string]*GhostDecl{},
 		UFuncs: map[string]*UFuncDecl{}, Consts: map[string]SExpr{}, Monotone: map[string]*MonoDecl{},
@@ -172,8 +191,8 @@ func (cs *ContractSet) loadContractFile(path, pkg string) error {
 			kw, rest = t[:i], t[i+1:]
 		}
 		switch kw {
-		case "ghost", "pure", "ufunc", "const", "monotone", "linear", "func", "iface", "extern", "lemma", "axiom",
-			"arith", "requires", "ensures", "modifies", "loop", "inline", "trusted", "borrows", "opt", "package":
+		case "ghost", "pure", "ufunc", "const", "monotone", "atomic", "linear", "typeinv", "typestep", "func", "iface", "extern", "lemma", "axiom",
+			"arith", "requires", "ensures", "modifies", "loop", "inline", "trusted", "borrows", "opt", "package", "exitghost":
 			if err := flush(); err != nil {
 				return err
 			}
@@ -286,6 +305,35 @@ func (cs *ContractSet) addClause(cur **Contract, pkg, kw, rest, where string) er
 		name := strings.TrimSpace(rest[:i])
 		cs.Pures[name] = &PureDef{Name: name, Params: names, Body: body, Src: rest[k+1:]}
 		*cur = nil
+	case "typeinv", "typestep":
+		// typeinv T(self) = expr : invariant of objects of named type T, referred to as tinv(x)
+		i := strings.Index(rest, "(")
+		j := strings.Index(rest, ")")
+		k := strings.Index(rest, "=")
+		if i < 0 || j < 0 || k < j {
+			return fmt.Errorf("%s: malformed typeinv", where)
+		}
+		names, _ := parseParamList(rest[i+1 : j])
+		body, err := parseSpec(rest[k+1:])
+		if err != nil {
+			return fmt.Errorf("%s: %v", where, err)
+		}
+		tn := strings.TrimSpace(rest[:i])
+		if !strings.Contains(tn, ".") {
+			tn = pkg + "." + tn
+		}
+		if cs.TypeInvs == nil {
+			cs.TypeInvs = map[string]*PureDef{}
+			cs.TypeSteps = map[string]*PureDef{}
+		}
+		if kw == "typestep" {
+			// two-state invariant (may use old()): a reflexive, transitive relation
+			// every method of the type establishes between its pre- and post-state
+			cs.TypeSteps[tn] = &PureDef{Name: tn, Params: names, Body: body, Src: rest[k+1:]}
+		} else {
+			cs.TypeInvs[tn] = &PureDef{Name: tn, Params: names, Body: body, Src: rest[k+1:]}
+		}
+		*cur = nil
 	case "const":
 		k := strings.Index(rest, "=")
 		body, err := parseSpec(rest[k+1:])
@@ -294,8 +342,8 @@ func (cs *ContractSet) addClause(cur **Contract, pkg, kw, rest, where string) er
 		}
 		cs.Consts[strings.TrimSpace(rest[:k])] = body
 		*cur = nil
-	case "monotone":
-		md := &MonoDecl{}
+	case "monotone", "atomic":
+		md := &MonoDecl{Free: kw == "atomic"}
 		name := strings.TrimSpace(rest)
 		if i := strings.Index(rest, " rely "); i >= 0 {
 			name = strings.TrimSpace(rest[:i])
@@ -386,6 +434,29 @@ func (cs *ContractSet) addClause(cur **Contract, pkg, kw, rest, where string) er
 			} else {
 				c.Opts[f[0]] = strings.Join(f[1:], " ")
 			}
+		case "exitghost":
+			// exitghost g(x) := e [when cond]
+			i := strings.Index(rest, ":=")
+			if i < 0 {
+				return fmt.Errorf("%s: exitghost needs :=", where)
+			}
+			tgt, err := parseSpec(rest[:i])
+			if err != nil {
+				return fmt.Errorf("%s: %v", where, err)
+			}
+			valSrc, condSrc := rest[i+2:], "true"
+			if j := strings.Index(valSrc, " when "); j >= 0 {
+				valSrc, condSrc = valSrc[:j], valSrc[j+6:]
+			}
+			val, err := parseSpec(valSrc)
+			if err != nil {
+				return fmt.Errorf("%s: %v", where, err)
+			}
+			cond, err := parseSpec(condSrc)
+			if err != nil {
+				return fmt.Errorf("%s: %v", where, err)
+			}
+			c.ExitGhost = append(c.ExitGhost, GhostSet{Target: tgt, Val: val, Cond: cond, Src: rest})
 		case "borrows":
 			for _, p := range strings.Split(rest, ",") {
 				c.Borrows = append(c.Borrows, strings.TrimSpace(p))
